@@ -14,12 +14,28 @@ Fixpoint wf_body (d : list N) (b : body) : Prop :=
   | BInd _ => False          (* no indirection in front of the thunk of a field *)
   end.
 
+(* every variable of every leaf is let through by the filter right above it *)
+Fixpoint closed_in (d : list N) (b : body) : Prop :=
+  match b with
+  | BSrc t => incl (vars t) d
+  | BMerge b1 d1 b2 d2 => closed_in d1 b1 /\ closed_in d2 b2
+  | BInd _ => False
+  end.
+
+(* The invariant comes in two modes.  [u = false]: the dependencies of every revertible thunk are
+   known (the normal operation).  [u = true]: they are all unknown (FieldDeps::Unknown, hook H4); all
+   the field names of the record then play the role of the dependencies, and the bodies must be closed
+   under them (no variable that is not a field of the record). *)
+Section Mode.
+Variable u : bool.
+
 (* a thunk of record instance [rid] whose field names are [keys]: revertible thunks are cached on
-   THEIR OWN record, have known dependencies, all of them field names of the record *)
+   THEIR OWN record; known dependencies are field names of the record *)
 Definition thunk_ok (rid : nat) (keys : list N) (th : thunk) : Prop :=
   match th with
-  | Std b => wf_body [] b
-  | Rev o (Some d) (Some c) => c = rid /\ wf_body d o /\ incl d keys
+  | Std b => wf_body [] b /\ (u = true -> closed_in [] b)
+  | Rev o (Some d) (Some c) => u = false /\ c = rid /\ wf_body d o /\ incl d keys
+  | Rev o None (Some c) => u = true /\ c = rid /\ wf_body keys o /\ closed_in keys o
   | _ => False
   end.
 
@@ -37,11 +53,8 @@ Definition coherent (st : state) (rid : nat) : Prop :=
 (* the configurations the theorems are about: the Rust code as it is, with any dependency analysis
    that returns exactly the variables occurring in a body (part A proves this of free_vars.rs) *)
 Definition faithful (c : cfg) : Prop :=
-  c_unknown c = false /\ c_revert c = RevFresh /\ c_patch c = PAssert /\ c_wrap_dyn c = false /\
-  (forall t x, In x (c_an c t) <-> In x (vars t)).
-
-Lemma cfg_fixed_faithful : faithful cfg_fixed.
-Proof. repeat split; auto. Qed.
+  c_unknown c = u /\ c_revert c = RevFresh /\ c_patch c = PAssert /\ c_wrap_dyn c = false /\
+  (u = false -> forall t x, In x (c_an c t) <-> In x (vars t)).
 
 (* ------------------------------------------------------------------------- abstraction *)
 Fixpoint abs_body (d : list N) (b : body) : sbody :=
@@ -51,26 +64,28 @@ Fixpoint abs_body (d : list N) (b : body) : sbody :=
   | BInd _ => SLeaf [] (Num 0)          (* outside the invariant *)
   end.
 
-Definition abs_thunk (th : thunk) : sbody :=
+(* [keys]: the field names of the record the thunk belongs to (the scope of a thunk whose
+   dependencies are unknown) *)
+Definition abs_thunk (keys : list N) (th : thunk) : sbody :=
   match th with
   | Std b => abs_body [] b
   | Rev o (Some d) _ => abs_body d o
-  | Rev o None _ => abs_body [] o        (* FieldDeps::Unknown: outside the invariant (hook H4) *)
+  | Rev o None _ => abs_body keys o
   end.
 
-Definition abs_tid (ths : list thunk) (tid : nat) : sbody :=
+Definition abs_tid (ths : list thunk) (keys : list N) (tid : nat) : sbody :=
   match nth_error ths tid with
-  | Some th => abs_thunk th
+  | Some th => abs_thunk keys th
   | None => SLeaf [] (Num 0)             (* dangling: outside the invariant *)
   end.
 
-Definition abs_fld (ths : list thunk) (f : ifld) : sfld :=
+Definition abs_fld (ths : list thunk) (keys : list N) (f : ifld) : sfld :=
   {| sprio := iprio f;
-     sval := option_map (abs_tid ths) (ival f);
-     sctrs := map (fun kc => (fst kc, abs_tid ths (snd kc))) (ictrs f) |}.
+     sval := option_map (abs_tid ths keys) (ival f);
+     sctrs := map (fun kc => (fst kc, abs_tid ths keys (snd kc))) (ictrs f) |}.
 
 Definition abs_rec (ths : list thunk) (r : irec) : srec :=
-  map (fun kf => (fst kf, abs_fld ths (snd kf))) r.
+  map (fun kf => (fst kf, abs_fld ths (ikeys r) (snd kf))) r.
 
 (* the S-record a record instance denotes *)
 Definition abs (st : state) (rid : nat) : srec :=
@@ -118,10 +133,11 @@ Proof.
 Qed.
 
 Lemma slookup_abs_rec : forall ths r k,
-  slookup k (abs_rec ths r) = option_map (abs_fld ths) (ilookup k r).
+  slookup k (abs_rec ths r) = option_map (abs_fld ths (ikeys r)) (ilookup k r).
 Proof.
-  intros ths r k. induction r as [|[k' f] r IH]; [reflexivity|].
-  cbn [abs_rec map fst snd slookup ilookup]. destruct (N.eqb k k'); [reflexivity | exact IH].
+  intros ths r k. unfold abs_rec. generalize (ikeys r) as keys. intros keys.
+  induction r as [|[k' f] r IH]; [reflexivity|].
+  cbn [map fst snd slookup ilookup]. destruct (N.eqb k k'); [reflexivity | exact IH].
 Qed.
 
 (* ------------------------------------------------------------------------- bodies *)
@@ -165,13 +181,18 @@ Lemma ithunk_abs : forall st rid r n tid,
   (forall k, field_via (ithunk n st) st rid k = sfield n (abs_rec (thunks st) r) k) ->
   tid_ok (thunks st) rid (ikeys r) tid ->
   ithunk (S n) st tid
-  = seval_body (fun x => var_out (sfield n (abs_rec (thunks st) r) x)) (abs_tid (thunks st) tid).
+  = seval_body (fun x => var_out (sfield n (abs_rec (thunks st) r) x)) (abs_tid (thunks st) (ikeys r) tid).
 Proof.
   intros st rid r n tid Hr IH (th & Hth & Htok). unfold abs_tid. cbn [ithunk]. rewrite Hth.
   destruct th as [b|o [d|] [c|]]; cbn [thunk_ok] in Htok; try contradiction; cbn [abs_thunk].
-  - apply ievalb_abs; [exact Htok|]. intros x. reflexivity.
-  - destruct Htok as (-> & Hwf & _). apply ievalb_abs; [exact Hwf|].
+  - apply ievalb_abs; [exact (proj1 Htok)|]. intros x. reflexivity.
+  - destruct Htok as (_ & -> & Hwf & _). apply ievalb_abs; [exact Hwf|].
     intros x. unfold scoped, in_deps. rewrite IH. reflexivity.
+  - (* unknown dependencies: no filter, but a name that is not a field of the record is unbound anyway *)
+    destruct Htok as (_ & -> & Hwf & _). apply ievalb_abs; [exact Hwf|].
+    intros x. unfold scoped, in_deps. rewrite IH. destruct (mem x (ikeys r)) eqn:Em; [reflexivity|].
+    destruct n as [|n']; cbn [sfield]; rewrite slookup_abs_rec;
+      apply mem_false in Em; apply ilookup_None in Em; rewrite Em; reflexivity.
 Qed.
 
 Theorem override_refines : forall st rid, coherent st rid ->
@@ -189,3 +210,11 @@ Proof.
   apply (ithunk_abs st rid r n ct Hr IH). apply Hok. unfold ftids. apply in_or_app. right.
   apply in_map_iff. exists (kd, ct). split; [reflexivity | exact Hin].
 Qed.
+
+End Mode.
+
+Lemma cfg_fixed_faithful : faithful false cfg_fixed.
+Proof. unfold faithful. cbn. repeat split; auto. Qed.
+
+Lemma cfg_fixed_unknown_faithful : faithful true (with_unknown cfg_fixed).
+Proof. unfold faithful. cbn. split; [reflexivity|]. split; [reflexivity|]. split; [reflexivity|]. split; [reflexivity|]. intros H. discriminate. Qed.
